@@ -169,6 +169,15 @@ def run_item(item):
     return out
 
 
+def _cr(x):
+    """order-free printable form (sets and mappings print in hash / insertion order otherwise)"""
+    if isinstance(x, (set, frozenset)):
+        return "{" + ", ".join(sorted(_cr(e) for e in x)) + "}"
+    if hasattr(x, "items"):
+        return "{" + ", ".join(sorted(f"{_cr(k)}: {_cr(v)}" for k, v in x.items())) + "}"
+    return repr(x)
+
+
 def _follow(g, op, other, spec_ok):
     """apply a follow-up to g; returns (status, observable result)"""
     if op[0] == "eq":
@@ -197,8 +206,8 @@ def _follow(g, op, other, spec_ok):
                     for k in keys:
                         kn = repr(sorted(k)) if isinstance(k, frozenset) else repr(k)   # order-free name of the key
                         try:
-                            res.append((v, kn, "get", repr(view.get(k)), k in view))
-                            res.append((v, kn, "[]", repr(view[k])))
+                            res.append((v, kn, "get", _cr(view.get(k)), k in view))
+                            res.append((v, kn, "[]", _cr(view[k])))
                         except Exception as e:
                             res.append((v, kn, type(e).__name__))
             return res
